@@ -30,7 +30,7 @@ def recsJson (univ : List String) (P : Kopf.C02.Store) : Json :=
   Json.mkObj (univ.map (fun i => (i, match P i with | some rc => C02.recJson rc | none => .null)))
 
 /-- the passes of the closed loop until no event is pending (or `fuel` turns); the FIRST turn may start with a
-    carried patch (`loopStepC`) -/
+    carried patch (`loopStepC`) or be held back by the consistency barrier (`loopStepI`) -/
 def runLoop (env : Env) (univ : List String) : Nat → Carried → Option (Bool × Int) → State Nat → List Json → List Json × State Nat
   | 0, _, _, s, acc => (acc.reverse, s)
   | fuel + 1, cr, inc, s, acc =>
